@@ -8,6 +8,7 @@ CLI = "C09 C10 C11 C20".split()
 GEO = "C01 C02 C03 C04 C08 C09 C10 C11 C12 C13 C14 C15 C16 C17".split()
 res, patches = sys.argv[1], sys.argv[2:]
 for patch in patches:
+    patch = os.path.abspath(patch)
     files = [l.split(" b/")[1].strip() for l in open(patch) if l.startswith("diff --git")]
     ids = set()
     for f in files:
@@ -22,6 +23,9 @@ for patch in patches:
     ids = sorted(ids)
     p = subprocess.run([sys.executable, VROOT + "/tools/try_neutral.py", patch] + ids, capture_output=True, text=True)
     alarms = [l for l in p.stdout.splitlines() if l.startswith("ALARM") or l.startswith("     ")]
+    if "patch does not apply" in p.stdout or "is not clean" in p.stdout:
+        print(patch, "NOT RUN:", p.stdout.strip()[-200:], flush=True)
+        continue
     with open(res, "a") as f:
         f.write(json.dumps({"patch": patch, "files": files, "checks": ids, "alarms": alarms, "tail": p.stdout.splitlines()[-1:]}) + "\n")
     print(patch, "alarms:", len([a for a in alarms if a.startswith("ALARM")]), flush=True)
